@@ -8,7 +8,7 @@ from .c01 import reply_ok
 
 ID = "C15"
 BUDGET = {"quick": 40, "thorough": 600}
-MAX_RUNS = {"quick": 1500, "thorough": 300000}
+MAX_RUNS = {"quick": 8000, "thorough": 300000}
 TECHNIQUE = "deterministic simulation: histories of valid/invalid POST /rules from 1-2 admin clients interleaved with probe requests; single-register linearizability check over rule-list versions"
 RULE = ("plans: up to 8 POST /rules (valid lists; invalid ones with a syntax error, a type error or an unknown target at a seeded position; GET-then-POST round trips) "
         "from 1-2 admin clients, interleaved with 2-30 probe requests that start before, during (0-3 ms around the POST) and after; every version is an independent "
